@@ -1,6 +1,6 @@
 """C02 - no accepted proof for an assignment that violates the circuit (structural clauses)."""
 from . import ob, flow, tables_plonk, tables_fri
-from .facts import walk, callee, parse_path
+from .facts import pat_binds, walk, callee, parse_path
 
 
 def run(F, ck, tier):
@@ -73,6 +73,52 @@ def run(F, ck, tier):
               'not decided (unrecognised loop form)', (loops_[0].get('s') if loops_ else '%s:%d' % (sl[0].file, sl[0].line)))
         az = any(x.get('k') == 'MCall' and x.get('n') == 'assert_zero' for x in walk(sl[0].body))
         ck.ob('R02.9', 'split_le.unused-limbs-zero', az, 'unused limbs are asserted zero' if az else 'split_le no longer asserts the unused limbs to be zero')
+    # R02.10 every way out of split_le has constrained the integer it splits
+    ck.rule('R02.10', 'every return of split_le is preceded, on its path, by a constraint on the split integer (connect / assert_zero): a shortcut that returns the empty decomposition without constraining the integer makes range_check(x, 0) vacuous')
+    if len(sl) == 1:
+        fn = sl[0]
+        pn = [b for p in fn.params for b in pat_binds(p)]
+        ints = [b['id'] for b in pn if b['n'] != 'self'][:1]
+        unconstrained = []
+        nret = [0]
+
+        def constrains(st):
+            return any(x.get('k') == 'MCall' and x.get('n') in ('connect', 'assert_zero', 'assert_equal', 'connect_extension') and
+                       any(y.get('k') == 'Local' and y['id'] in ints for a in x.get('a', []) for y in walk(a)) for x in walk(st))
+
+        def visit(block, constrained):
+            # returns True when the integer is constrained on every path that falls out of the block
+            for st in block.get('st', []):
+                for x in walk(st):
+                    if x.get('k') == 'Ret':
+                        nret[0] += 1
+                        # a return nested in this statement: constrained so far, or inside the statement before the return
+                        inner = _constrained_before(st, x)
+                        if not (constrained or inner):
+                            unconstrained.append(x.get('s'))
+                if constrains(st) and st.get('k') not in ('If', 'Match', 'For', 'While', 'Loop'):
+                    constrained = True
+            return constrained
+
+        def _constrained_before(st, ret):
+            # inside the statement `st`, is there a constraining call that precedes `ret` in its own block?
+            for b in walk(st):
+                if b.get('k') == 'Block':
+                    seen = False
+                    for s2 in b.get('st', []):
+                        if any(x is ret for x in walk(s2)):
+                            return seen or (s2 is not ret and _constrained_before(s2, ret)) if s2.get('k') != 'Ret' else seen
+                        if constrains(s2):
+                            seen = True
+            return False
+        body = fn.body
+        fell = visit(body, False)
+        nret[0] += 1       # the tail
+        if not fell:
+            unconstrained.append('%s:%d (tail)' % (fn.file, fn.line))
+        ck.ob('R02.10', 'split_le.every-exit-constrains', not unconstrained, '%d exits, each after a constraint on the integer' % nret[0] if not unconstrained else
+              'UNCONSTRAINED EXIT: split_le returns at %s without having constrained the integer it was asked to split: range_check(x, n) for that case accepts every x' % ', '.join(map(str, unconstrained)),
+              unconstrained[0] if unconstrained else None)
     # R02.8 routable boundary
     ck.rule('R02.8', 'Wire::is_routable holds exactly for columns below num_routed_wires (the columns that have a sigma polynomial): the comparison is normalised algebraically, so equivalent spellings pass')
     routable_boundary(F, ck)
